@@ -159,6 +159,8 @@ def c_behave(b):
         return C("BOnAtom", Pos(norm_atom(b[1])))
     if name == "file":
         return C("BFile", [Pos(a) for a in UNENCODABLE])
+    if name in ("crashfile", "realfile"):
+        return C("BNever")
     raise ValueError(b)
 
 
@@ -241,7 +243,7 @@ def all_dest_ids(case):
     ids = []
     for o in case.get("pre", []):
         if o[0] == "add":
-            ids += [d[0] for d in o[1] if d[1][0] != "file"]
+            ids += [d[0] for d in o[1] if d[1][0] not in ("file", "crashfile", "realfile")]
     return ids
 
 
@@ -351,6 +353,53 @@ class LoggingRaised(BaseException):
     pass
 
 
+class SimCrash(BaseException):
+    """the process dies here"""
+
+
+class CrashFile(object):
+    """binary file object that 'kills the process' while performing its n-th operation
+    (operations = write and flush calls, 0-based); a write may transfer a byte prefix first"""
+
+    def __init__(self, crash_at, cut):
+        self.crash_at, self.cut = crash_at, cut
+        self.ops = 0
+        self.buf = b""
+        self.dead = False
+        self.completed_writes = 0
+        self.write_lens = []
+        self.interrupted = None
+        self.log = []
+
+    def write(self, data):
+        if self.dead:
+            return
+        if not isinstance(data, bytes):
+            raise TypeError("bytes required")
+        if data == b"" and self.ops == 0 and not self.log:
+            self.log.append("probe")
+            return 0
+        self.write_lens.append(len(data))
+        if self.ops == self.crash_at:
+            if self.cut is not None:
+                self.buf += data[:self.cut]
+            self.dead = True
+            self.interrupted = data
+            raise SimCrash()
+        self.buf += data
+        self.ops += 1
+        self.completed_writes += 1
+        return len(data)
+
+    def flush(self):
+        if self.dead:
+            return
+        if self.ops == self.crash_at:
+            self.dead = True
+            raise SimCrash()
+        self.ops += 1
+
+
 class Interp(object):
     def __init__(self, case):
         import eliot
@@ -370,6 +419,8 @@ class Interp(object):
         self.dests = {}
         self.ser_calls = []
         self.files = {}
+        self.crashfile = None
+        self.on_return = None
         self.events = []
         self.forest = []          # the interpreter's own record of what it did (C01 oracle)
         self.tnode = {}           # handle -> its shadow node
@@ -466,6 +517,14 @@ class Interp(object):
             f = io.BytesIO()
             self.files[did] = f
             return FileDestination(file=f)
+        if b[0] == "crashfile":
+            from eliot import FileDestination
+            self.crashfile = CrashFile(b[1], b[2])
+            return FileDestination(file=self.crashfile)
+        if b[0] == "realfile":
+            from eliot import FileDestination
+            self.realfile = open(b[1], "ab")
+            return FileDestination(file=self.realfile)
 
         class Rec(object):
             def __init__(self):
@@ -559,7 +618,10 @@ class Interp(object):
     # -- logging calls: anything they raise is a property violation, recorded
     def call(self, what, fn, *a, **kw):
         try:
-            return fn(*a, **kw)
+            r = fn(*a, **kw)
+            if self.on_return is not None:
+                self.on_return()
+            return r
         except BaseException as e:
             self.notes.append("logging_raised:%s:%s" % (what, type(e).__name__))
             raise LoggingRaised(what)
